@@ -130,7 +130,12 @@ class Program(object):
             if not progress:
                 for index, statement in enumerate(self.statements):
                     if not statement.fixed_size:
-                        statement.determine_pcr_relative_sizes(self.statements, index, force_16_bit=True)
+                        try:
+                            statement.determine_pcr_relative_sizes(self.statements, index, force_16_bit=True)
+                        except Exception as error:
+                            raise TranslationError(str(error), statement)
+                        if not statement.fixed_size:
+                            raise TranslationError("Unable to determine the size of the operand", statement)
                         break
 
         address = 0
